@@ -121,6 +121,33 @@ def gen(rng, shard, nshards, n_ed, n_p256, table, rms):
             cases.append(case1("s ed25519 ux_comp %d %d" % (i, j), "OK 16385 " + hexs[16 * i:16 * j], ["ux_comp-slice"], "UX_COMP table"))
     C = ED25519
     L = C.L
+    if table:
+        # sweep of the search table: for rm = 19 the hidden part of S is 2^14 + b with the table index |b| in 0..16384;
+        # one valid signature per index (this shard's share), found by grinding the message under a fixed (a, r):
+        # S = r + H(R || A || M) * a needs only a hash per trial.
+        import hashlib as _hl
+        a_ = rng.randrange(1, L); r_ = rng.randrange(1, L)
+        Ab = C.encode(C.mul_base(a_)); Rb = C.encode(C.mul_base(r_))
+        want = set(j for j in range(16385) if j % nshards == shard)
+        found = {}
+        pre = rb(rng, 8)
+        ctr = 0
+        while want and ctr < 6000000:
+            M = pre + ctr.to_bytes(4, "little")
+            ctr += 1
+            k_ = int.from_bytes(_hl.sha512(Rb + Ab + M).digest(), "little") % L
+            S_ = (r_ + k_ * a_) % L
+            j = abs((S_ >> 237) - (1 << 14))
+            if j in want:
+                want.discard(j)
+                found[j] = (M, S_)
+        for j, (M, S_) in found.items():
+            sig = Rb + S_.to_bytes(32, "little")
+            inp = overwrite_last_bits(sig, 19, rng.choice(["zero", "ones", "random"]), rng)
+            cases.append(case1("s ed25519 vtrunc %s %s 19 raw - %s" % (Ab.hex(), inp.hex(), M.hex()), expect_ed(Ab, inp, 19, M, None, False, sig),
+                               ["ux-index-sweep"] + (["ux-index-sweep:j=0"] if j == 0 else []) + (["ux-index-sweep:j=16383+"] if j >= 16383 else []), "table index sweep"))
+        if want:
+            cases.append(case1("ping", "ORACLE-INCOMPLETE: %d table indices not reached by grinding" % len(want), ["ux-index-sweep-incomplete"]))
     # ---- Ed25519 ----
     for it in range(n_ed):
         seed = rb(rng, 32)
@@ -308,8 +335,9 @@ def main(argv):
         exes = build_many(cfgs)
         m = run_sharded("c13", "gen", (n1 // NCPU + 1, n2 // NCPU + 1, True, rms), [(c, exes[c]) for c in cfgs], a.seed, timeout=7200)
         rep.merge(m)
+        rep.extra["ux_table_indices_swept_at_rm19"] = rep.classes.get("ux-index-sweep", 0)
         rep.extra["ux_comp_entries_checked"] = 16385 if rep.classes.get("ux_comp-slice", 0) >= 17 else 0
-        rep.require("ux_comp-slice", "ed25519", "p256", "complete", "corrupt", "rm=8", "rm=32", "rm=16", "fill=ones", "fill=zero", "hidden-min", "hidden-max",
+        rep.require("ux_comp-slice", "ux-index-sweep", "ux-index-sweep:j=0", "ed25519", "p256", "complete", "corrupt", "rm=8", "rm=32", "rm=16", "fill=ones", "fill=zero", "hidden-min", "hidden-max",
                     "corrupt-R", "kept-bits-off-by-one", "other-root", "s-negated-by-preparation", "p256-prepare:some", "p256-prepare:none", "p256-prepare:len=other")
     except Inconclusive as e:
         rep.incon.append(str(e))
